@@ -180,7 +180,7 @@ theorem resolving_equiv (x y : DynamicIntervalPeriodic) (t : Int) (h : Equiv x y
     refine ⟨⟨a1, ?_, a3, a4, a5, Or.inr ⟨?_, ?_, ?_⟩⟩, rfl⟩ <;> simp only [] <;> omega
 
 /-- chunk independence of `DynamicIntervalPeriodic.resolving`: equivalent states, yields concatenate -/
-theorem resolving_add (s : DynamicIntervalPeriodic) (a b : Int) (hi : s.Inv) (ha : 0 ≤ a) (hb : 0 ≤ b) :
+theorem resolving_add (s : DynamicIntervalPeriodic) (a b : Int) (hi : s.Inv) (_ha : 0 ≤ a) (hb : 0 ≤ b) :
     Equiv ((s.resolving a).1.resolving b).1 (s.resolving (a + b)).1 ∧
     (s.resolving (a + b)).2 = (s.resolving a).2 ++ ((s.resolving a).1.resolving b).2 := by
   have hw := hi.1
@@ -216,7 +216,7 @@ theorem resolving_add (s : DynamicIntervalPeriodic) (a b : Int) (hi : s.Inv) (ha
         exact decide_eq_true (show p.1.intervalCounter - m ≤ 0 by omega))
       (by
         intro p _
-        simp only [σ, body, tickStep, Prod.mk.injEq, DynamicIntervalPeriodic.mk.injEq, and_true, true_and]
+        simp only [σ, body, tickStep, Prod.mk.injEq, DynamicIntervalPeriodic.mk.injEq, and_true]
         omega)
       n1 n2 n3 (s.pre a, [])
       (by rw [hr]; exact hd1)
@@ -231,7 +231,7 @@ theorem resolving_add (s : DynamicIntervalPeriodic) (a b : Int) (hi : s.Inv) (ha
     rw [hdead]
     -- the single call: same counter arithmetic as the first chunk, only `time_left` differs
     have hpre : s.pre (a + b) = { s.pre a with timeLeft := s.timeLeft - (a + b) } := by
-      simp only [pre, DynamicIntervalPeriodic.mk.injEq, and_true, true_and]
+      simp only [pre, DynamicIntervalPeriodic.mk.injEq, and_true]
       omega
     let τ : DynamicIntervalPeriodic × List Int → DynamicIntervalPeriodic × List Int :=
       fun p => ({ p.1 with timeLeft := s.timeLeft - (a + b) }, p.2)
@@ -356,7 +356,7 @@ theorem swordLoop_eq_iter (interval : Int) (n : Nat) : ∀ (c : Int) (k : Nat),
     simp only [swordLoop, iter, guard, body, decide_eq_true_eq, ih]
 
 /-- the cap does not bind: the loop stops because the counter became positive -/
-theorem iter_done (interval : Int) (hI : 0 < interval) (n : Nat) : ∀ (c : Int) (k : Nat),
+theorem iter_done (interval : Int) (_hI : 0 < interval) (n : Nat) : ∀ (c : Int) (k : Nat),
     0 < c + (n : Int) * interval → guard (iter guard (body interval) n (c, k)) = false := by
   induction n with
   | zero =>
@@ -371,7 +371,7 @@ theorem iter_done (interval : Int) (hI : 0 < interval) (n : Nat) : ∀ (c : Int)
       have e : ((n + 1 : Nat) : Int) * interval = (n : Int) * interval + interval := by
         rw [Int.natCast_succ, Int.add_mul, Int.one_mul]
       rw [e] at h
-      simp only [body]; omega
+      omega
     · have hg' : guard (c, k) = false := by simpa using hg
       rw [iter_of_not _ _ hg']; exact hg'
 
